@@ -167,6 +167,13 @@ class Walker:
     def walk(self, stmts, env, conds, rows):
         for i, st in enumerate(stmts):
             rest = stmts[i + 1:]
+            if isinstance(st.value if isinstance(st, (ast.Assign, ast.Return)) else None, ast.IfExp) and (
+                    isinstance(st, ast.Return) or isinstance(st.targets[0], ast.Tuple)):
+                # a conditional value is the same as an if/else over two assignments / returns
+                e = st.value
+                mk = (lambda v: ast.copy_location(ast.Assign(targets=st.targets, value=v, lineno=st.lineno), st)) \
+                    if isinstance(st, ast.Assign) else (lambda v: ast.copy_location(ast.Return(value=v), st))
+                st = ast.copy_location(ast.If(test=e.test, body=[mk(e.body)], orelse=[mk(e.orelse)]), st)
             if isinstance(st, ast.If):
                 p = self.pred(st.test, env)
                 if p[0] == "lit":
